@@ -28,7 +28,7 @@ from nbdime.args import (
     add_git_diff_driver_args, add_diff_cli_args, ConfigBackedParser,
     add_prettyprint_args
     )
-from nbdime.utils import locate_gitattributes, ensure_dir_exists, setup_std_streams
+from nbdime.utils import locate_gitattributes, has_gitattribute, ensure_dir_exists, setup_std_streams
 from .filter_integration import apply_possible_filter
 
 def enable(scope=None):
@@ -49,7 +49,7 @@ def enable(scope=None):
 
     if os.path.exists(gitattributes):
         with io.open(gitattributes, encoding="utf8") as f:
-            if 'diff=jupyternotebook' in f.read():
+            if has_gitattribute(f.read(), '*.ipynb', 'diff=jupyternotebook'):
                 # already written, nothing to do
                 return
     else:
